@@ -218,7 +218,7 @@ def struct_children(g, n_cp=None):
 def struct_parents(g):
     """Struct holding nested values flattened into the counterpart via #[parent(..)] (README 'Parent instructions')."""
     r = g.r
-    cps = r.sample(["A", "B"], r.choice([1, 1, 2]))
+    cps = r.sample(["A", "B", "G<i32>", "Q<'x, u8>"], r.choice([1, 1, 2]))
     shape = "named"
     it = Item("struct", "S", shape=shape)
     it.attrs = g.trait_set(cps)
@@ -240,7 +240,7 @@ def struct_parents(g):
                         if depth < 2 and g.chance(0.3):
                             xs.append(f"[parent({plist(depth + 1)})] q{k}: Q{k}")
                         elif g.chance(0.3):
-                            xs.append(f"[{r.choice(['map', 'from', 'into', 'map_owned'])}(m{k})] x{k}")
+                            xs.append(f"[{r.choice(['map', 'from', 'into', 'map_owned', 'map_ref', 'into_existing', 'from_ref', 'owned_into'])}(m{k})] x{k}")
                         elif g.chance(0.2):
                             xs.append(f"[map(~.k{k}())] x{k}")
                         else:
